@@ -22,6 +22,19 @@
 //                    to 1e-12 relative.
 #include <config.h>
 #include "common/gkw.hpp"
+#include "common/ser_includes.hpp"
+#include <opm/input/eclipse/EclipseState/EclipseState.hpp>
+#include <opm/input/eclipse/EclipseState/Grid/FieldPropsManager.hpp>
+#include <opm/input/eclipse/EclipseState/Grid/EclipseGrid.hpp>
+#include <opm/input/eclipse/Schedule/Schedule.hpp>
+#include <opm/input/eclipse/Schedule/ScheduleState.hpp>
+#include <opm/input/eclipse/Schedule/SummaryState.hpp>
+#include <opm/input/eclipse/Python/Python.hpp>
+#include <opm/common/utility/TimeService.hpp>
+#include <variant>
+#include <optional>
+#include <unordered_map>
+#include <unordered_set>
 #include <opm/input/eclipse/Units/UnitSystem.hpp>
 #include <opm/input/eclipse/Units/Dimension.hpp>
 #include <opm/input/eclipse/Parser/Parser.hpp>
@@ -1111,6 +1124,570 @@ static int runKw(const vh::Args& args, vh::Reporter& rep, Env& env) {
     return 0;
 }
 
+
+// ---------------------------------------------------------------------------------------------------------------
+// part=model : one physical model written in the four unit systems
+// ---------------------------------------------------------------------------------------------------------------
+// Text with physical values: every dimensioned number is kept as (SI value, dimension as stated by the harness from the
+// ECLIPSE manual) and rendered per unit system with the reference factors.
+struct PhysText {
+    struct Seg { std::string lit; bool val = false; double si = 0; std::string dim; };
+    std::vector<Seg> segs;
+    long nvalues = 0, ndefaults = 0;
+    std::set<std::string> dims;
+    PhysText& t(const std::string& s) { if (!segs.empty() && !segs.back().val) segs.back().lit += s; else { Seg g; g.lit = s; segs.push_back(g); } return *this; }
+    PhysText& v(double si, const std::string& dim) { Seg g; g.val = true; g.si = si; g.dim = dim; segs.push_back(g); ++nvalues; dims.insert(dim); return *this; }
+    PhysText& d() { ++ndefaults; return t(" 1*"); }
+    std::string render(int s) const {
+        std::string o;
+        for (const auto& g : segs) {
+            if (!g.val) { o += g.lit; continue; }
+            ref::Dim dd = ref::parse(ref::SYS[s], g.dim);
+            o += " " + g17((g.si - dd.off) / dd.f);
+        }
+        return o;
+    }
+};
+
+struct ModelInfo {
+    int nx = 2, ny = 2, nz = 2;
+    std::vector<std::string> features;
+};
+
+// The model.  All numbers are SI; the dimension strings are the harness's statement of the physical dimension of the
+// item (ECLIPSE reference manual), written without looking at the keyword JSON files.
+static PhysText generateModel(Rng& rng, ModelInfo& mi) {
+    PhysText p;
+    auto U = [&](double a, double b) { return rng.uniform(a, b); };
+    auto LU = [&](double a, double b) { return rng.loguniform(a, b); };
+    auto feat = [&](const char* f) { mi.features.push_back(f); };
+    // value or default (the choice is the same in all four renderings)
+    auto vd = [&](double si, const char* dim, double pdef = 0.3) { if (rng.chance(pdef)) p.d(); else p.v(si, dim); };
+    const int nx = mi.nx = 2 + (int)rng.below(3), ny = mi.ny = 2 + (int)rng.below(2), nz = mi.nz = 2 + (int)rng.below(3);
+    const int n = nx * ny * nz;
+    const bool disgas = rng.chance(0.7), vapoil = rng.chance(0.4);
+    const bool polymer = rng.chance(0.3), thermalTables = rng.chance(0.5), network = rng.chance(0.3), aquifer = rng.chance(0.4);
+    const bool familyTwo = rng.chance(0.3);
+    const bool equil = rng.chance(0.6);
+    const int ntpvt = 1 + (int)rng.below(2), ntsfun = 1 + (int)rng.below(2);
+    const double P0 = U(1.5e7, 3.5e7), top = U(1500, 2500);
+    p.t("RUNSPEC\nTITLE\n C02 physical model\nDIMENS\n " + std::to_string(nx) + " " + std::to_string(ny) + " " + std::to_string(nz) + " /\nOIL\nWATER\nGAS\n");
+    if (disgas) p.t("DISGAS\n");
+    if (vapoil) p.t("VAPOIL\n");
+    if (polymer) { p.t("POLYMER\n"); feat("POLYMER"); }
+    if (network) { p.t("NETWORK\n 5 5 /\n"); feat("NETWORK"); }
+    p.t("@UNITS@\nSTART\n 1 'JAN' 2020 /\nTABDIMS\n " + std::to_string(ntsfun) + " " + std::to_string(ntpvt) + " 20 20 /\nEQLDIMS\n 1 /\nWELLDIMS\n 10 10 5 10 /\nWSEGDIMS\n 3 10 5 /\n");
+    p.t("VFPPDIMS\n 5 5 5 5 5 3 /\nVFPIDIMS\n 5 5 3 /\n");
+    if (aquifer) { p.t("AQUDIMS\n 1* 1* 1* 1* 3 20 /\n"); }
+    p.t("GRID\nINIT\n");
+    // ---------------------------------------------------------------- GRID
+    auto cellArray = [&](const char* kw, int cnt, double a, double b, const char* dim, bool logu = false) {
+        p.t(std::string(kw) + "\n");
+        for (int i = 0; i < cnt; ++i) { p.v(logu ? LU(a, b) : U(a, b), dim); if (i % 8 == 7) p.t("\n"); }
+        p.t(" /\n");
+    };
+    cellArray("DX", n, 20, 200, "Length"); cellArray("DY", n, 20, 200, "Length"); cellArray("DZ", n, 2, 30, "Length");
+    p.t("TOPS\n"); for (int i = 0; i < nx * ny; ++i) p.v(top + U(0, 20), "Length"); p.t(" /\n");
+    cellArray("PORO", n, 0.05, 0.35, "1");
+    cellArray("PERMX", n, 1e-15, 1e-11, "Permeability", true);
+    cellArray("PERMY", n, 1e-15, 1e-11, "Permeability", true);
+    cellArray("PERMZ", n, 1e-16, 1e-12, "Permeability", true);
+    if (rng.chance(0.5)) { cellArray("NTG", n, 0.5, 1.0, "1"); feat("NTG"); }
+    if (thermalTables && rng.chance(0.6)) { cellArray("THCONR", n, 1.0, 4.0, "Energy/AbsoluteTemperature*Length*Time"); feat("THCONR"); }
+    if (rng.chance(0.3)) { p.t("MINPV\n").v(U(0.5, 5.0), "ReservoirVolume").t(" /\n"); feat("MINPV"); }
+    if (rng.chance(0.3)) { p.t("PINCH\n").v(U(0.01, 0.5), "Length").t(" 'GAP'"); vd(U(1, 50), "Length", 0.5); p.t(" /\n"); feat("PINCH"); }
+    // scalar operations on field properties (BOX items are integers)
+    auto box = [&]() { int i1 = 1 + (int)rng.below(nx), i2 = i1 + (int)rng.below(nx - i1 + 1), k1 = 1 + (int)rng.below(nz), k2 = k1 + (int)rng.below(nz - k1 + 1);
+                       return " " + std::to_string(i1) + " " + std::to_string(i2) + " 1 " + std::to_string(ny) + " " + std::to_string(k1) + " " + std::to_string(k2) + " /\n"; };
+    if (rng.chance(0.7)) {
+        feat("GRID-OPS");
+        p.t("EQUALS\n 'PERMZ'").v(LU(1e-16, 1e-12), "Permeability").t(box());
+        if (rng.chance(0.5)) p.t(" 'PORO'").v(U(0.1, 0.3), "1").t(box());
+        p.t("/\nADD\n 'PERMX'").v(LU(1e-15, 1e-13), "Permeability").t(box()).t("/\n");
+        p.t("MULTIPLY\n 'PERMY'").v(U(0.5, 2.0), "1").t(box()).t("/\n");
+        if (rng.chance(0.5)) p.t("MAXVALUE\n 'PERMX'").v(LU(1e-12, 1e-11), "Permeability").t(box()).t("/\nMINVALUE\n 'PERMZ'").v(LU(1e-16, 1e-15), "Permeability").t(box()).t("/\n");
+        if (rng.chance(0.3)) p.t("COPY\n 'PERMX' 'PERMY' /\n/\n");
+    }
+    // ---------------------------------------------------------------- PROPS
+    p.t("PROPS\n");
+    p.t("DENSITY\n"); for (int t = 0; t < ntpvt; ++t) { vd(U(700, 900), "Density", 0.2); vd(U(1000, 1100), "Density", 0.2); vd(U(0.7, 1.2), "Density", 0.2); p.t(" /\n"); }
+    p.t("PVTW\n"); for (int t = 0; t < ntpvt; ++t) { p.v(P0 + U(-1e6, 1e6), "Pressure"); vd(U(1.0, 1.05), "1"); vd(U(3e-10, 6e-10), "1/Pressure"); vd(U(3e-4, 1e-3), "Viscosity"); vd(U(0, 1e-10), "1/Pressure"); p.t(" /\n"); }
+    p.t("ROCK\n"); for (int t = 0; t < ntpvt; ++t) { vd(P0 + U(-1e6, 1e6), "Pressure", 0.2); vd(U(3e-10, 8e-10), "1/Pressure", 0.2); p.t(" /\n"); }
+    auto satRows = [&](int rows) { std::vector<double> s(rows); double lo = U(0.05, 0.25), hi = 1.0; for (int i = 0; i < rows; ++i) s[i] = lo + (hi - lo) * i / (rows - 1); return s; };
+    if (!familyTwo) {
+        p.t("SWOF\n");
+        for (int t = 0; t < ntsfun; ++t) { int rows = 3 + (int)rng.below(4); auto sw = satRows(rows); double pc0 = U(1e4, 3e5);
+            for (int i = 0; i < rows; ++i) { double x = (double)i / (rows - 1); p.v(sw[i], "1").v(x * x, "1").v((1 - x) * (1 - x), "1").v(pc0 * (1 - x), "Pressure").t("\n"); } p.t(" /\n"); }
+        p.t("SGOF\n");
+        for (int t = 0; t < ntsfun; ++t) { int rows = 3 + (int)rng.below(4); double pc0 = U(1e4, 2e5), smax = U(0.6, 0.8);
+            for (int i = 0; i < rows; ++i) { double x = (double)i / (rows - 1); p.v(smax * x, "1").v(x * x, "1").v((1 - x) * (1 - x), "1").v(pc0 * x, "Pressure").t("\n"); } p.t(" /\n"); }
+    } else {
+        feat("FAMILY-II");
+        p.t("SWFN\n");
+        for (int t = 0; t < ntsfun; ++t) { int rows = 3 + (int)rng.below(4); auto sw = satRows(rows); double pc0 = U(1e4, 3e5);
+            for (int i = 0; i < rows; ++i) { double x = (double)i / (rows - 1); p.v(sw[i], "1").v(x * x, "1").v(pc0 * (1 - x), "Pressure").t("\n"); } p.t(" /\n"); }
+        p.t("SGFN\n");
+        for (int t = 0; t < ntsfun; ++t) { int rows = 3 + (int)rng.below(4); double pc0 = U(1e4, 2e5), smax = U(0.6, 0.8);
+            for (int i = 0; i < rows; ++i) { double x = (double)i / (rows - 1); p.v(smax * x, "1").v(x * x, "1").v(pc0 * x, "Pressure").t("\n"); } p.t(" /\n"); }
+        p.t("SOF3\n");
+        for (int t = 0; t < ntsfun; ++t) { int rows = 3 + (int)rng.below(4);
+            for (int i = 0; i < rows; ++i) { double x = (double)i / (rows - 1); p.v(0.8 * x, "1").v(x * x, "1").v(x * x * x, "1").t("\n"); } p.t(" /\n"); }
+    }
+    // gas: dry (PVDG) or wet (PVTG); formation volume factors are reservoir volume per surface volume
+    if (!vapoil) {
+        p.t("PVDG\n");
+        for (int t = 0; t < ntpvt; ++t) { int rows = 3 + (int)rng.below(4); double pp = U(1e6, 3e6), bg = U(0.05, 0.1), mu = U(1e-5, 1.5e-5);
+            for (int i = 0; i < rows; ++i) { p.v(pp, "Pressure").v(bg, "ReservoirVolume/GasSurfaceVolume").v(mu, "Viscosity").t("\n"); pp += U(3e6, 9e6); bg *= U(0.4, 0.8); mu *= U(1.05, 1.3); } p.t(" /\n"); }
+    } else {
+        feat("PVTG");
+        p.t("PVTG\n");
+        for (int t = 0; t < ntpvt; ++t) { int nodes = 2 + (int)rng.below(3); double pg = U(2e6, 5e6), rv = U(1e-5, 5e-5), bg = U(0.03, 0.06), mu = U(1.2e-5, 1.6e-5);
+            for (int q = 0; q < nodes; ++q) {
+                int rows = 1 + (int)rng.below(3);
+                p.v(pg, "Pressure");
+                double rvr = rv, bgr = bg, mur = mu;
+                for (int i = 0; i < rows; ++i) { p.v(rvr, "LiquidSurfaceVolume/GasSurfaceVolume").v(bgr, "ReservoirVolume/GasSurfaceVolume").v(mur, "Viscosity").t("\n"); rvr *= U(0.3, 0.7); bgr *= 0.999; mur *= 0.99; }
+                p.t(" /\n"); pg += U(4e6, 9e6); rv *= U(1.3, 2.0); bg *= U(0.5, 0.8); mu *= U(1.05, 1.2);
+            }
+            p.t("/\n"); }
+    }
+    if (disgas) {
+        p.t("PVTO\n");
+        for (int t = 0; t < ntpvt; ++t) { int nodes = 2 + (int)rng.below(3); double rs = U(5, 30), pb = U(2e6, 5e6), bo = U(1.05, 1.15), mu = U(1e-3, 2e-3);
+            for (int q = 0; q < nodes; ++q) {
+                int rows = (q == nodes - 1) ? 2 + (int)rng.below(2) : 1 + (int)rng.below(2);
+                p.v(rs, "GasSurfaceVolume/LiquidSurfaceVolume");
+                double pr = pb, bor = bo, mur = mu;
+                for (int i = 0; i < rows; ++i) { p.v(pr, "Pressure").v(bor, "ReservoirVolume/LiquidSurfaceVolume").v(mur, "Viscosity").t("\n"); pr += U(5e6, 1e7); bor *= 0.99; mur *= 1.05; }
+                p.t(" /\n"); rs += U(20, 60); pb += U(4e6, 9e6); bo += U(0.05, 0.15); mu *= U(0.7, 0.9);
+            }
+            p.t("/\n"); }
+    } else {
+        feat("PVDO");
+        p.t("PVDO\n");
+        for (int t = 0; t < ntpvt; ++t) { int rows = 3 + (int)rng.below(3); double pp = U(1e6, 3e6), bo = U(1.1, 1.3), mu = U(1e-3, 2e-3);
+            for (int i = 0; i < rows; ++i) { p.v(pp, "Pressure").v(bo, "ReservoirVolume/LiquidSurfaceVolume").v(mu, "Viscosity").t("\n"); pp += U(5e6, 1e7); bo *= 0.98; mu *= 1.05; } p.t(" /\n"); }
+    }
+    if (thermalTables) {
+        feat("THERMAL-TABLES");
+        p.t("SPECHEAT\n");
+        for (int t = 0; t < ntpvt; ++t) { int rows = 2 + (int)rng.below(3); double T = U(280, 300);
+            for (int i = 0; i < rows; ++i) { p.v(T, "Temperature").v(U(1800, 2200), "Energy/Mass*AbsoluteTemperature").v(U(4000, 4300), "Energy/Mass*AbsoluteTemperature").v(U(2000, 2500), "Energy/Mass*AbsoluteTemperature").t("\n"); T += U(20, 60); } p.t(" /\n"); }
+        p.t("SPECROCK\n");
+        for (int t = 0; t < ntsfun; ++t) { int rows = 2 + (int)rng.below(3); double T = U(280, 300);
+            for (int i = 0; i < rows; ++i) { p.v(T, "Temperature").v(U(1.8e6, 2.5e6), "Energy/Length*Length*Length*AbsoluteTemperature").t("\n"); T += U(20, 60); } p.t(" /\n"); }
+        if (rng.chance(0.6)) {
+            p.t("VISCREF\n"); for (int t = 0; t < ntpvt; ++t) { p.v(P0, "Pressure").v(U(20, 100), "GasSurfaceVolume/LiquidSurfaceVolume").t(" /\n"); }
+            p.t("WATVISCT\n"); for (int t = 0; t < ntpvt; ++t) { int rows = 2 + (int)rng.below(3); double T = U(280, 300), mu = U(8e-4, 1e-3); for (int i = 0; i < rows; ++i) { p.v(T, "Temperature").v(mu, "Viscosity").t("\n"); T += U(20, 50); mu *= U(0.5, 0.8); } p.t(" /\n"); }
+            p.t("OILVISCT\n"); for (int t = 0; t < ntpvt; ++t) { int rows = 2 + (int)rng.below(3); double T = U(280, 300), mu = U(2e-3, 5e-3); for (int i = 0; i < rows; ++i) { p.v(T, "Temperature").v(mu, "Viscosity").t("\n"); T += U(20, 50); mu *= U(0.5, 0.8); } p.t(" /\n"); }
+        }
+        if (rng.chance(0.5)) { p.t("STCOND\n"); vd(U(285, 295), "Temperature", 0.3); vd(U(1.0e5, 1.02e5), "Pressure", 0.3); p.t(" /\n"); feat("STCOND"); }
+        if (rng.chance(0.5)) {
+            feat("DENT");
+            p.t("OILDENT\n"); for (int t = 0; t < ntpvt; ++t) { vd(U(288, 298), "AbsoluteTemperature"); vd(U(5e-4, 1e-3), "1/AbsoluteTemperature"); vd(U(1e-7, 1e-6), "1/AbsoluteTemperature*AbsoluteTemperature"); p.t(" /\n"); }
+            p.t("WATDENT\n"); for (int t = 0; t < ntpvt; ++t) { vd(U(288, 298), "AbsoluteTemperature"); vd(U(2e-4, 4e-4), "1/AbsoluteTemperature"); vd(U(1e-6, 4e-6), "1/AbsoluteTemperature*AbsoluteTemperature"); p.t(" /\n"); }
+        }
+    }
+    if (polymer) {
+        p.t("PLYVISC\n"); for (int t = 0; t < ntpvt; ++t) { int rows = 2 + (int)rng.below(3); double c = 0, f = 1; for (int i = 0; i < rows; ++i) { p.v(c, "Mass/LiquidSurfaceVolume").v(f, "1").t("\n"); c += U(0.5, 1.5); f += U(1, 10); } p.t(" /\n"); }
+        p.t("PLYADS\n"); for (int t = 0; t < ntsfun; ++t) { int rows = 2 + (int)rng.below(3); double c = 0, a = 0; for (int i = 0; i < rows; ++i) { p.v(c, "Mass/LiquidSurfaceVolume").v(a, "1").t("\n"); c += U(0.5, 1.5); a += U(1e-5, 3e-5); } p.t(" /\n"); }
+        p.t("PLYMAX\n"); for (int t = 0; t < 1; ++t) { p.v(U(2, 5), "Mass/LiquidSurfaceVolume").v(U(0, 1), "Mass/LiquidSurfaceVolume").t(" /\n"); }
+    }
+    // ---------------------------------------------------------------- REGIONS / SOLUTION
+    p.t("REGIONS\n");
+    if (ntsfun > 1) { p.t("SATNUM\n"); for (int i = 0; i < n; ++i) p.t(" " + std::to_string(1 + rng.below(ntsfun))); p.t(" /\n"); }
+    if (ntpvt > 1) { p.t("PVTNUM\n"); for (int i = 0; i < n; ++i) p.t(" " + std::to_string(1 + rng.below(ntpvt))); p.t(" /\n"); }
+    p.t("SOLUTION\n");
+    if (equil) {
+        feat("EQUIL");
+        p.t("EQUIL\n"); vd(top + U(0, 40), "Length", 0.1); p.v(P0, "Pressure"); vd(top + U(40, 100), "Length", 0.2); vd(U(0, 5e4), "Pressure", 0.4); vd(top + U(-20, 5), "Length", 0.2); vd(U(0, 5e4), "Pressure", 0.4); p.t(" 1 1 0 /\n");
+        auto depthTable = [&](const char* kw, double a, double b, const char* dim) { p.t(std::string(kw) + "\n"); double z = top - 100; int rows = 2 + (int)rng.below(3); for (int i = 0; i < rows; ++i) { p.v(z, "Length").v(U(a, b), dim).t("\n"); z += U(50, 300); } p.t(" /\n"); };
+        if (disgas) { if (rng.chance(0.5)) depthTable("RSVD", 20, 100, "GasSurfaceVolume/LiquidSurfaceVolume"); else depthTable("PBVD", 5e6, 2e7, "Pressure"); }
+        if (vapoil) { if (rng.chance(0.5)) depthTable("RVVD", 1e-5, 1e-4, "LiquidSurfaceVolume/GasSurfaceVolume"); else depthTable("PDVD", 5e6, 2e7, "Pressure"); }
+        if (thermalTables && rng.chance(0.6)) { depthTable("RTEMPVD", 300, 400, "Temperature"); feat("RTEMPVD"); }
+        else if (thermalTables && rng.chance(0.5)) { p.t("RTEMP\n"); vd(U(300, 400), "Temperature", 0.3); p.t(" /\n"); feat("RTEMP"); }
+        if (polymer && rng.chance(0.5)) { depthTable("SALTVD", 0, 30, "Mass/LiquidSurfaceVolume"); feat("SALTVD"); }
+    } else {
+        feat("EXPLICIT-INIT");
+        cellArray("PRESSURE", n, 1.5e7, 3.5e7, "Pressure"); cellArray("SWAT", n, 0.1, 0.4, "1"); cellArray("SGAS", n, 0.0, 0.3, "1");
+        if (disgas) cellArray("RS", n, 20, 120, "GasSurfaceVolume/LiquidSurfaceVolume");
+        if (vapoil) cellArray("RV", n, 1e-5, 1e-4, "LiquidSurfaceVolume/GasSurfaceVolume");
+        if (thermalTables) { cellArray("TEMPI", n, 300, 400, "Temperature"); feat("TEMPI"); }
+        if (rng.chance(0.5)) { p.t("EQUALS\n 'PRESSURE'").v(U(1.5e7, 3.5e7), "Pressure").t(box()).t("/\nADD\n 'PRESSURE'").v(U(1e5, 1e6), "Pressure").t(box()).t("/\n"); if (disgas) p.t("MULTIPLY\n 'RS'").v(U(0.8, 1.2), "1").t(box()).t("/\n"); feat("SOLUTION-OPS"); }
+        if (thermalTables && rng.chance(0.4)) { p.t("EQUALS\n 'TEMPI'").v(U(300, 400), "Temperature").t(box()).t("/\n"); feat("EQUALS-TEMPI"); }
+    }
+    if (aquifer) {
+        feat("AQUIFER");
+        if (rng.chance(0.5)) { p.t("AQUFETP\n 1").v(top + U(50, 100), "Length").v(P0, "Pressure").v(LU(1e7, 1e9), "LiquidSurfaceVolume").v(U(5e-10, 1e-9), "1/Pressure").v(LU(1e-9, 1e-8), "LiquidSurfaceVolume/Time*Pressure").t(" 1 /\n/\n"); }
+        else { p.t("AQUCT\n 1").v(top + U(50, 100), "Length").v(P0, "Pressure").v(LU(1e-14, 1e-12), "Permeability").v(U(0.1, 0.3), "1").v(U(5e-10, 1e-9), "1/Pressure").v(U(500, 2000), "Length").v(U(10, 50), "Length"); vd(U(90, 360), "1", 0.5); p.t(" 1 1 /\n/\n"); }
+        p.t("AQUANCON\n 1 1 1 1 " + std::to_string(ny) + " 1 " + std::to_string(nz) + " 'I-'"); vd(U(100, 5000), "Length*Length", 0.5); vd(U(0.5, 2), "1", 0.5); p.t(" /\n/\n");
+    }
+    p.t("SUMMARY\nFOPR\nSCHEDULE\n");
+    // ---------------------------------------------------------------- SCHEDULE
+    p.t("GRUPTREE\n 'G1' 'FIELD' /\n 'G2' 'FIELD' /\n/\n");
+    struct W { std::string name, group; int i, j; char kind; };   // P producer, H history producer, W water injector, G gas injector
+    std::vector<W> wells = {{"P1", "G1", 1, 1, 'P'}, {"P2", "G1", nx, 1, 'H'}, {"I1", "G2", 1, ny, 'W'}, {"I2", "G2", nx, ny, 'G'}};
+    p.t("WELSPECS\n");
+    for (auto& w : wells) { p.t(" '" + w.name + "' '" + w.group + "' " + std::to_string(w.i) + " " + std::to_string(w.j)); vd(top + U(0, 30), "Length", 0.4); p.t(w.kind == 'G' ? " 'GAS'" : (w.kind == 'W' ? " 'WATER'" : " 'OIL'")); vd(U(50, 300), "Length", 0.5); p.t(" /\n"); }
+    p.t("/\nCOMPDAT\n");
+    for (auto& w : wells) for (int k = 1; k <= nz; ++k) {
+        p.t(" '" + w.name + "' " + std::to_string(w.i) + " " + std::to_string(w.j) + " " + std::to_string(k) + " " + std::to_string(k) + " 'OPEN' 1*");
+        int form = (int)rng.below(4);
+        if (form == 0) { p.v(LU(1e-13, 1e-11), "Viscosity*ReservoirVolume/Time*Pressure").v(U(0.1, 0.3), "Length"); vd(LU(1e-13, 1e-11), "Permeability*Length", 0.5); vd(U(-1, 5), "1", 0.5); }
+        else if (form == 1) { p.d().v(U(0.1, 0.3), "Length").v(LU(1e-13, 1e-11), "Permeability*Length").v(U(-1, 5), "1"); vd(LU(1e-3, 1e-1), "Time/GasSurfaceVolume", 0.5); p.t(" '" + std::string(1, "XYZ"[rng.below(3)]) + "'"); vd(U(5, 40), "Length", 0.5); }
+        else if (form == 2) { p.d().v(U(0.1, 0.3), "Length").d().v(U(-1, 5), "1").d().t(" 'Z'"); }
+        else { p.d().v(U(0.1, 0.3), "Length"); }
+        p.t(" /\n");
+    }
+    p.t("/\n");
+    const bool msw = rng.chance(0.4);
+    if (msw) {
+        feat("MSW");
+        p.t("WELSEGS\n 'P1'").v(top - 10, "Length").v(U(0, 5), "Length"); vd(U(1e-5, 1e-3), "Length*Length*Length", 0.5); p.t(" 'ABS' 'HFA' 'HO' /\n");
+        for (int k = 1; k <= nz; ++k) { p.t(" " + std::to_string(k + 1) + " " + std::to_string(k + 1) + " 1 " + std::to_string(k)).v(10.0 * k + 5, "Length").v(top + 10.0 * k, "Length").v(U(0.1, 0.3), "Length").v(LU(1e-5, 1e-3), "Length"); if (rng.chance(0.5)) { vd(U(0.01, 0.07), "Length*Length", 0.3); vd(U(0.05, 1.0), "Length*Length*Length", 0.3); } p.t(" /\n"); }
+        p.t("/\nCOMPSEGS\n 'P1' /\n");
+        for (int k = 1; k <= nz; ++k) { p.t(" 1 1 " + std::to_string(k) + " 1").v(10.0 * (k - 1) + 6, "Length").v(10.0 * k + 4, "Length").t(" /\n"); }
+        p.t("/\n");
+        if (rng.chance(0.5)) { p.t("WSEGVALV\n 'P1' 2").v(U(0.5, 1.0), "1").v(LU(1e-4, 1e-2), "Length*Length"); vd(U(0, 2), "Length", 0.5); vd(U(0.1, 0.2), "Length", 0.5); vd(LU(1e-5, 1e-3), "Length", 0.5); vd(U(0.01, 0.05), "Length*Length", 0.5); p.t(" /\n/\n"); feat("WSEGVALV"); }
+        if (nz >= 2 && rng.chance(0.5)) { p.t("WSEGSICD\n 'P1' 3 3").v(LU(1e3, 1e6), "Pressure*Time*Time/Length*Length*Length*Length*Length*Length"); vd(U(5, 20), "Length", 0.5); vd(U(900, 1100), "Density", 0.5); vd(U(5e-4, 2e-3), "Viscosity", 0.5); p.t(" /\n/\n"); feat("WSEGSICD"); }
+    }
+    const bool vfp = rng.chance(0.4);
+    if (vfp) {
+        feat("VFPPROD");
+        p.t("VFPPROD\n 1").v(top, "Length").t(" 'OIL' 'WCT' 'GOR' 'THP' 'GRAT' '@VFPUNITS@' 'BHP' /\n");
+        for (int i = 0; i < 3; ++i) p.v(1e-3 * (i + 1) * U(0.9, 1.1), "LiquidSurfaceVolume/Time"); p.t(" /\n");
+        for (int i = 0; i < 2; ++i) p.v(1e6 * (i + 1) + U(0, 1e5), "Pressure"); p.t(" /\n");
+        p.v(0.0, "1").v(0.5, "1").t(" /\n");
+        p.v(50 + U(0, 10), "GasSurfaceVolume/LiquidSurfaceVolume").v(150 + U(0, 10), "GasSurfaceVolume/LiquidSurfaceVolume").t(" /\n");
+        p.v(0.0, "GasSurfaceVolume/Time").t(" /\n");
+        for (int t = 1; t <= 2; ++t) for (int w = 1; w <= 2; ++w) for (int g = 1; g <= 2; ++g) { p.t(" " + std::to_string(t) + " " + std::to_string(w) + " " + std::to_string(g) + " 1"); for (int f = 0; f < 3; ++f) p.v(U(8e6, 2e7), "Pressure"); p.t(" /\n"); }
+    }
+    if (network) {
+        p.t("BRANPROP\n 'G1' 'FIELD' 9999 /\n 'G2' 'FIELD' 9999 /\n/\nNODEPROP\n 'FIELD'").v(U(2e6, 5e6), "Pressure").t(" /\n 'G1' /\n 'G2' /\n/\n");
+    }
+    auto prodControl = [&](const std::string& w) {
+        static const char* modes[] = {"ORAT", "WRAT", "GRAT", "LRAT", "RESV", "BHP"};
+        p.t("WCONPROD\n '" + w + "' 'OPEN' '" + modes[rng.below(6)] + "'");
+        vd(LU(1e-4, 1e-2), "LiquidSurfaceVolume/Time", 0.2); vd(LU(1e-4, 1e-2), "LiquidSurfaceVolume/Time", 0.2); vd(LU(1e-2, 1), "GasSurfaceVolume/Time", 0.2); vd(LU(1e-4, 1e-2), "LiquidSurfaceVolume/Time", 0.2);
+        vd(LU(1e-4, 1e-2), "ReservoirVolume/Time", 0.2); vd(U(5e6, 1.5e7), "Pressure", 0.3);
+        if (vfp && rng.chance(0.6)) { p.v(U(1e6, 2e6), "Pressure").t(" 1").v(LU(1e-2, 1e-1), "GasSurfaceVolume/Time"); }
+        p.t(" /\n/\n");
+    };
+    auto injControl = [&](const W& w) {
+        static const char* modes[] = {"RATE", "RESV", "BHP"};
+        p.t("WCONINJE\n '" + w.name + "' '" + (w.kind == 'G' ? "GAS" : "WATER") + "' 'OPEN' '" + modes[rng.below(3)] + "'");
+        p.v(w.kind == 'G' ? LU(1e-1, 10) : LU(1e-4, 1e-2), w.kind == 'G' ? "GasSurfaceVolume/Time" : "LiquidSurfaceVolume/Time");
+        vd(LU(1e-4, 1e-2), "ReservoirVolume/Time", 0.3); vd(U(3e7, 5e7), "Pressure", 0.3); vd(U(1e7, 2e7), "Pressure", 0.5);
+        p.t(" /\n/\n");
+    };
+    auto histControl = [&](const std::string& w) {
+        p.t("WCONHIST\n '" + w + "' 'OPEN' '" + (rng.chance(0.5) ? "ORAT" : "RESV") + "'").v(LU(1e-4, 1e-2), "LiquidSurfaceVolume/Time").v(LU(1e-4, 1e-2), "LiquidSurfaceVolume/Time").v(LU(1e-2, 1), "GasSurfaceVolume/Time");
+        if (rng.chance(0.5)) { p.t(" 2* "); vd(U(1e6, 2e6), "Pressure", 0.3); vd(U(1e7, 2e7), "Pressure", 0.3); }
+        p.t(" /\n/\n");
+    };
+    prodControl("P1"); histControl("P2"); injControl(wells[2]); injControl(wells[3]);
+    const int nsteps = 2 + (int)rng.below(3);
+    for (int st = 0; st < nsteps; ++st) {
+        int nk = 2 + (int)rng.below(6);
+        for (int q = 0; q < nk; ++q) {
+            switch (rng.below(24)) {
+            case 0: prodControl("P1"); break;
+            case 1: histControl("P2"); break;
+            case 2: injControl(wells[2 + rng.below(2)]); break;
+            case 3: { static const char* m[] = {"ORAT", "WRAT", "GRAT", "LRAT", "RESV", "BHP", "THP"}; static const char* dm[] = {"LiquidSurfaceVolume/Time", "LiquidSurfaceVolume/Time", "GasSurfaceVolume/Time", "LiquidSurfaceVolume/Time", "ReservoirVolume/Time", "Pressure", "Pressure"};
+                      int k = (int)rng.below(7); p.t(std::string("WELTARG\n 'P1' '") + m[k] + "'").v(k == 2 ? LU(1e-2, 1) : (k >= 5 ? U(5e6, 1.5e7) : LU(1e-4, 1e-2)), dm[k]).t(" /\n/\n"); feat("WELTARG"); break; }
+            case 4: { p.t("GCONPROD\n 'G1' 'ORAT'"); vd(LU(1e-4, 1e-2), "LiquidSurfaceVolume/Time", 0.1); vd(LU(1e-4, 1e-2), "LiquidSurfaceVolume/Time", 0.3); vd(LU(1e-2, 1), "GasSurfaceVolume/Time", 0.3); vd(LU(1e-4, 1e-2), "LiquidSurfaceVolume/Time", 0.3);
+                      p.t(" 'RATE' 'YES' 1* ' ' 3*"); vd(LU(1e-4, 1e-2), "ReservoirVolume/Time", 0.5); p.t(" /\n/\n"); feat("GCONPROD"); break; }
+            case 5: { bool gas = rng.chance(0.4); p.t(std::string("GCONINJE\n 'G2' '") + (gas ? "GAS" : "WATER") + "' '" + (rng.chance(0.5) ? "RATE" : "RESV") + "'").v(gas ? LU(1e-1, 10) : LU(1e-4, 1e-2), gas ? "GasSurfaceVolume/Time" : "LiquidSurfaceVolume/Time").v(LU(1e-4, 1e-2), "ReservoirVolume/Time");
+                      vd(U(0.5, 1), "1", 0.5); vd(U(0.5, 1), "1", 0.5); p.t(" /\n/\n"); feat("GCONINJE"); break; }
+            case 6: { p.t("WECON\n 'P1'"); vd(LU(1e-6, 1e-4), "LiquidSurfaceVolume/Time", 0.3); vd(LU(1e-4, 1e-2), "GasSurfaceVolume/Time", 0.3); vd(U(0.8, 0.99), "1", 0.3); vd(U(200, 2000), "GasSurfaceVolume/LiquidSurfaceVolume", 0.3); vd(U(1e-3, 1e-2), "LiquidSurfaceVolume/GasSurfaceVolume", 0.3);
+                      p.t(" 'CON' 'NO' /\n/\n"); feat("WECON"); break; }
+            case 7: { p.t("GECON\n 'G1'"); vd(LU(1e-6, 1e-4), "LiquidSurfaceVolume/Time", 0.3); vd(LU(1e-4, 1e-2), "GasSurfaceVolume/Time", 0.3); vd(U(0.8, 0.99), "1", 0.3); vd(U(200, 2000), "GasSurfaceVolume/LiquidSurfaceVolume", 0.3); vd(U(1e-3, 1e-2), "LiquidSurfaceVolume/GasSurfaceVolume", 0.3);
+                      p.t(" 'NONE' 'NO' /\n/\n"); feat("GECON"); break; }
+            case 8: { p.t("WTEST\n 'P1'").v(U(1, 30) * 86400, "Time").t(" 'P' 2"); vd(U(0, 5) * 86400, "Time", 0.5); p.t(" /\n/\n"); feat("WTEST"); break; }
+            case 9: { p.t("WTEMP\n 'I1'").v(U(290, 350), "Temperature").t(" /\n/\n"); feat("WTEMP"); break; }
+            case 10: { p.t("WINJTEMP\n 'I1' 1*").v(U(290, 350), "Temperature"); vd(U(1e6, 1e7), "Pressure", 0.5); p.t(" /\n/\n"); feat("WINJTEMP"); break; }
+            case 11: { if (!polymer) break; p.t("WPOLYMER\n 'I1'").v(U(0.5, 3), "Mass/LiquidSurfaceVolume").v(U(0, 1), "Mass/LiquidSurfaceVolume").t(" /\n/\n"); feat("WPOLYMER"); break; }
+            case 12: { if (!disgas) break; p.t("DRSDT\n").v(LU(1e-6, 1e-3), "GasSurfaceVolume/LiquidSurfaceVolume*Time").t(" /\n"); feat("DRSDT"); break; }
+            case 13: { p.t("GCONSUMP\n 'G1'").v(LU(1e-3, 1e-1), "GasSurfaceVolume/Time"); vd(LU(1e-3, 1e-1), "GasSurfaceVolume/Time", 0.5); p.t(" /\n/\n"); feat("GCONSUMP"); break; }
+            case 14: { p.t("LIFTOPT\n").v(LU(1e-2, 1e-1), "GasSurfaceVolume/Time").v(LU(1e-4, 1e-2), "LiquidSurfaceVolume/GasSurfaceVolume"); vd(U(1, 10) * 86400, "Time", 0.5); p.t(" /\n");
+                       p.t("WLIFTOPT\n 'P1' 'YES'").v(LU(1e-1, 1), "GasSurfaceVolume/Time").t(" 1.0").v(LU(1e-3, 1e-2), "GasSurfaceVolume/Time").t(" /\n/\n");
+                       p.t("GLIFTOPT\n 'G1'"); vd(LU(1, 10), "GasSurfaceVolume/Time", 0.4); vd(LU(1, 10), "GasSurfaceVolume/Time", 0.4); p.t(" /\n/\n"); feat("LIFTOPT"); break; }
+            case 15: { p.t("TUNING\n").v(U(0.5, 2) * 86400, "Time").v(U(10, 50) * 86400, "Time"); vd(U(0.05, 0.2) * 86400, "Time", 0.5); vd(U(0.1, 0.3) * 86400, "Time", 0.5); p.t(" /\n /\n 12 1 25 1 8 8");
+                       vd(U(1e6, 1e7), "Pressure", 0.5); p.t(" 1*"); vd(U(1e6, 1e7), "Pressure", 0.5); p.t(" /\n"); feat("TUNING"); break; }
+            case 16: { p.t("NEXTSTEP\n").v(U(0.5, 5) * 86400, "Time").t(" 'NO' /\n"); feat("NEXTSTEP"); break; }
+            case 17: { p.t("WINJMULT\n 'I1'").v(U(3e7, 5e7), "Pressure").v(LU(1e-8, 1e-6), "1/Pressure").t(" 'WREV' /\n/\n"); feat("WINJMULT"); break; }
+            case 18: { p.t("WDFAC\n 'P1'").v(LU(1e-3, 1e-1), "Time/GasSurfaceVolume").t(" /\n/\n"); feat("WDFAC"); break; }
+            case 19: { p.t("WEFAC\n 'P1'").v(U(0.5, 1), "1").t(" /\n/\nGEFAC\n 'G1'").v(U(0.5, 1), "1").t(" /\n/\n"); break; }
+            case 20: { p.t("GPMAINT\n 'G2' 'WINJ' 1 1*").v(U(1.5e7, 3e7), "Pressure").v(LU(1e-10, 1e-8), "ReservoirVolume/Time*Pressure").v(U(10, 100) * 86400, "Time").t(" /\n/\n"); feat("GPMAINT"); break; }
+            case 21: { if (!network) break; p.t("NODEPROP\n 'FIELD'").v(U(2e6, 5e6), "Pressure").t(" /\n/\n"); break; }
+            case 22: { p.t("WELSPECS\n 'P1' 'G1' 1 1").v(top + U(0, 30), "Length").t(" 'OIL'"); vd(U(50, 300), "Length", 0.5); p.t(" /\n/\n"); break; }
+            case 23: { p.t("COMPDAT\n 'P2' " + std::to_string(nx) + " 1 1 1 'OPEN' 1*"); vd(LU(1e-13, 1e-11), "Viscosity*ReservoirVolume/Time*Pressure", 0.5); p.v(U(0.1, 0.3), "Length"); p.t(" /\n/\n"); break; }
+            }
+        }
+        if (rng.chance(0.7)) { p.t("TSTEP\n"); int m = 1 + (int)rng.below(3); for (int q = 0; q < m; ++q) p.v(U(1, 40) * 86400, "Time"); p.t(" /\n"); }
+        else p.t("DATES\n 1 '" + std::string(st == 0 ? "JUN" : (st == 1 ? "DEC" : "JAN")) + "' " + std::to_string(st < 2 ? 2020 + st / 2 : 2020 + st) + " /\n/\n");
+    }
+    return p;
+}
+
+// ---- tolerant structural dump: a visitor with the call interface of Opm::Serializer that flattens any serialisable object
+// into (path, number | text) entries.  Numbers are compared with a relative tolerance, everything else exactly.
+struct Ent { std::string path; bool num = false; double v = 0; std::string txt; };
+struct NumVisitor {
+    std::vector<Ent>& out;
+    std::string path;
+    explicit NumVisitor(std::vector<Ent>& o, const std::string& root) : out(o), path(root) {}
+    bool isSerializing() const { return true; }
+    template <class T> struct is_vec : std::false_type {};
+    template <class T, class A> struct is_vec<std::vector<T, A>> : std::true_type {};
+    template <class T> struct is_opt : std::false_type {};
+    template <class T> struct is_opt<std::optional<T>> : std::true_type {};
+    template <class T> struct is_var : std::false_type {};
+    template <class... T> struct is_var<std::variant<T...>> : std::true_type {};
+    template <class T> struct is_pair : std::false_type {};
+    template <class A, class B> struct is_pair<std::pair<A, B>> : std::true_type {};
+    template <class... T> struct is_pair<std::tuple<T...>> : std::true_type {};
+    template <class T> struct is_sp : std::false_type {};
+    template <class T> struct is_sp<std::shared_ptr<T>> : std::true_type {};
+    template <class T> struct is_sp<std::unique_ptr<T>> : std::true_type {};
+    template <class T> struct is_map : std::false_type {};
+    template <class K, class V, class C, class A> struct is_map<std::map<K, V, C, A>> : std::true_type {};
+    template <class K, class V, class H, class E, class A> struct is_map<std::unordered_map<K, V, H, E, A>> : std::true_type {};
+    template <class T> struct is_set : std::false_type {};
+    template <class K, class C, class A> struct is_set<std::set<K, C, A>> : std::true_type {};
+    template <class K, class H, class E, class A> struct is_set<std::unordered_set<K, H, E, A>> : std::true_type {};
+    template <class T> struct is_arr : std::false_type {};
+    template <class T, std::size_t N> struct is_arr<std::array<T, N>> : std::true_type {};
+    template <class T, class = void> struct has_sop : std::false_type {};
+    template <class T> struct has_sop<T, std::void_t<decltype(std::declval<T&>().serializeOp(std::declval<NumVisitor&>()))>> : std::true_type {};
+
+    void text(const std::string& s) { Ent e; e.path = path; e.txt = s; out.push_back(e); }
+    void number(double v) { Ent e; e.path = path; e.num = true; e.v = v; out.push_back(e); }
+    template <class T> std::string keyOf(const T& k) { std::vector<Ent> tmp; NumVisitor v(tmp, ""); v(k); std::string s; for (auto& e : tmp) s += e.num ? g17(e.v) : e.txt; return s; }
+    struct Scope { NumVisitor& v; std::string saved; Scope(NumVisitor& vv, const std::string& add) : v(vv), saved(vv.path) { v.path += add; } ~Scope() { v.path = saved; } };
+
+    template <class T> void operator()(const T& x) {
+        using U = std::remove_cv_t<std::remove_reference_t<T>>;
+        if constexpr (is_sp<U>::value) { if (x) (*this)(*x); else text("null"); }
+        else if constexpr (is_pair<U>::value) { std::apply([this](const auto&... e) { ((this->operator()(e)), ...); }, x); }
+        else if constexpr (is_var<U>::value) { text("variant" + std::to_string(x.index())); std::visit([this](const auto& e) { (*this)(e); }, x); }
+        else if constexpr (is_opt<U>::value) { if (x) { text("some"); (*this)(*x); } else text("none"); }
+        else if constexpr (std::is_same_v<U, std::vector<bool>>) { std::string s; for (bool b : x) s += b ? '1' : '0'; text(s); }
+        else if constexpr (is_vec<U>::value || is_arr<U>::value) { text("[" + std::to_string(x.size())); size_t i = 0; for (const auto& e : x) { Scope sc(*this, "[" + std::to_string(i++) + "]"); (*this)(e); } }
+        else if constexpr (is_map<U>::value) {
+            std::vector<std::pair<std::string, const typename U::value_type*>> items;
+            for (const auto& kv : x) items.emplace_back(keyOf(kv.first), &kv);
+            std::sort(items.begin(), items.end(), [](const auto& a, const auto& b) { return a.first < b.first; });
+            text("{" + std::to_string(items.size()));
+            for (auto& it : items) { Scope sc(*this, "{" + it.first + "}"); text(it.first); (*this)(it.second->second); }
+        }
+        else if constexpr (is_set<U>::value) { std::vector<std::string> ks; for (const auto& k : x) ks.push_back(keyOf(k)); std::sort(ks.begin(), ks.end()); std::string s = "set:"; for (auto& k : ks) s += k + ";"; text(s); }
+        else if constexpr (std::is_same_v<U, KeywordLocation>) { }
+        else if constexpr (std::is_same_v<U, UnitSystem>) { }                 // the deck's unit system is the varied parameter
+        else if constexpr (std::is_same_v<U, Dimension>) { }                  // conversion factors of the deck's unit system
+        else if constexpr (std::is_same_v<U, UDAValue>) {
+            // a user defined argument keeps the deck number and its Dimension: the quantity it denotes is getSI()
+            if (x.template is<double>()) { double v; try { v = x.getSI(); } catch (const std::exception&) { v = x.template get<double>(); } number(v); }
+            else if (x.template is<std::string>()) text(x.template get<std::string>());
+            else text("uda-undefined");
+        }
+        else if constexpr (std::is_same_v<U, DeckItem>) {
+            Scope sc(*this, "/" + x.name());
+            for (size_t i = 0; i < x.data_size(); ++i) {
+                if (!x.hasValue(i)) { text(x.defaultApplied(i) ? "d" : "v"); continue; }
+                switch (x.getType()) {
+                case type_tag::integer: text(std::to_string(x.template get<int>(i))); break;
+                case type_tag::string: text(x.template get<std::string>(i)); break;
+                case type_tag::raw_string: text(x.template get<RawString>(i)); break;
+                case type_tag::fdouble: { double v; try { v = x.getSIDouble(i); } catch (const std::exception&) { v = x.template get<double>(i); } number(v); break; }
+                case type_tag::uda: (*this)(x.template get<UDAValue>(i)); break;
+                default: text("?");
+                }
+            }
+        }
+        else if constexpr (std::is_same_v<U, UDQDefine>) { (void)x.input_string(); const_cast<U&>(x).serializeOp(*this); }
+        else if constexpr (has_sop<U>::value) {
+            std::string tn = typeid(U).name();
+            // keep the readable tail of the mangled name
+            size_t q = tn.size(); while (q > 0 && !std::isdigit((unsigned char)tn[q - 1])) --q;
+            Scope sc(*this, "/" + tn.substr(q));
+            const_cast<U&>(x).serializeOp(*this);
+        }
+        else if constexpr (std::is_same_v<U, std::string>) { text(x); }
+        else if constexpr (std::is_floating_point_v<U>) { number((double)x); }
+        else if constexpr (std::is_enum_v<U>) { text("e" + std::to_string(static_cast<long>(x))); }
+        else if constexpr (std::is_arithmetic_v<U>) { text(std::to_string(+x)); }
+        else if constexpr (std::is_same_v<U, time_point>) { text("t" + std::to_string(x.time_since_epoch().count())); }
+        else { std::string s = "pod" + std::to_string(sizeof(U)) + ":"; const unsigned char* pp = reinterpret_cast<const unsigned char*>(&x); char b[4]; for (size_t i = 0; i < sizeof(U); i++) { snprintf(b, sizeof b, "%02x", pp[i]); s += b; } text(s); }
+    }
+};
+
+struct Section { std::string name; std::vector<Ent> ents; };
+struct ModelObs { bool ok = false; std::string err; std::string stage; std::vector<Section> sections; };
+
+static void observeModel(const Parser& parser, const std::string& text, const std::shared_ptr<Python>& python, ModelObs& mo) {
+    try {
+        mo.stage = "parse";
+        ParseContext pc;
+        ErrorGuard eg;
+        Deck deck = parser.parseString(text, pc, eg);
+        eg.clear();
+        // --- Deck: every item of every keyword, SI
+        {
+            Section sec; sec.name = "deck";
+            for (size_t ki = 0; ki < deck.size(); ++ki) {
+                const DeckKeyword& kw = deck[ki];
+                if (kw.name() == "METRIC" || kw.name() == "FIELD" || kw.name() == "LAB" || kw.name() == "PVT-M") continue;
+                size_t r = 0;
+                for (const auto& rec : kw) {
+                    for (const auto& it : rec) {
+                        std::string path = kw.name() + "[" + std::to_string(r) + "]." + it.name();
+                        for (size_t i = 0; i < it.data_size(); ++i) {
+                            Ent e; e.path = path + "[" + std::to_string(i) + "]";
+                            const char fl = it.defaultApplied(i) ? 'D' : 'V';
+                            if (!it.hasValue(i)) { e.txt = std::string(1, fl) + "!"; sec.ents.push_back(e); continue; }
+                            if (it.getType() == type_tag::fdouble) {
+                                Ent f = e; f.txt = std::string(1, fl); sec.ents.push_back(f);
+                                e.num = true;
+                                try { e.v = it.getSIDouble(i); } catch (const std::exception&) { e.v = it.get<double>(i); }
+                                sec.ents.push_back(e);
+                            } else if (it.getType() == type_tag::uda) {
+                                auto u = it.get<UDAValue>(i);
+                                Ent f = e; f.txt = std::string(1, fl); sec.ents.push_back(f);
+                                if (u.is<double>()) { e.num = true; try { e.v = u.getSI(); } catch (const std::exception&) { e.v = u.get<double>(); } sec.ents.push_back(e); }
+                            } else if (it.getType() == type_tag::integer) { e.txt = fl + std::to_string(it.get<int>(i)); sec.ents.push_back(e); }
+                        }
+                    }
+                    ++r;
+                }
+            }
+            mo.sections.push_back(std::move(sec));
+        }
+        mo.stage = "EclipseState";
+        EclipseState es(deck);
+        { Section sec; sec.name = "eclipse-state"; NumVisitor v(sec.ents, "EclipseState"); v(es); mo.sections.push_back(std::move(sec)); }
+        {
+            Section sec; sec.name = "field-properties";
+            const auto& fp = es.fieldProps();
+            auto keys = fp.keys<double>();
+            std::sort(keys.begin(), keys.end());
+            for (auto& k : keys) { const auto& d = fp.get_double(k); Ent t; t.path = k; t.txt = "n=" + std::to_string(d.size()); sec.ents.push_back(t); size_t i = 0; for (double x : d) { Ent e; e.path = k + "[" + std::to_string(i++) + "]"; e.num = true; e.v = x; sec.ents.push_back(e); } }
+            auto porv = fp.porv(true);
+            size_t i = 0; for (double x : porv) { Ent e; e.path = "PORV[" + std::to_string(i++) + "]"; e.num = true; e.v = x; sec.ents.push_back(e); }
+            mo.sections.push_back(std::move(sec));
+        }
+        {
+            Section sec; sec.name = "grid";
+            const auto& g = es.getInputGrid();
+            Ent t; t.path = "active"; t.txt = std::to_string(g.getNumActive()); sec.ents.push_back(t);
+            for (size_t c = 0; c < g.getCartesianSize(); ++c) {
+                Ent e; e.num = true;
+                e.path = "volume[" + std::to_string(c) + "]"; e.v = g.getCellVolume(c); sec.ents.push_back(e);
+                auto ctr = g.getCellCenter(c);
+                for (int q = 0; q < 3; ++q) { e.path = "center" + std::to_string(q) + "[" + std::to_string(c) + "]"; e.v = ctr[q]; sec.ents.push_back(e); }
+                e.path = "thickness[" + std::to_string(c) + "]"; e.v = g.getCellThickness(c); sec.ents.push_back(e);
+            }
+            mo.sections.push_back(std::move(sec));
+        }
+        mo.stage = "Schedule";
+        Schedule sched(deck, es, pc, eg, python);
+        eg.clear();
+        {
+            Section sec; sec.name = "schedule";
+            SummaryState st(TimeService::now(), 0.0);
+            for (size_t step = 0; step < sched.size(); ++step) {
+                const std::string sp = "step" + std::to_string(step);
+                if (step + 1 < sched.size()) { Ent e; e.path = sp + "/length"; e.num = true; e.v = sched.stepLength(step); sec.ents.push_back(e); }
+                { NumVisitor v(sec.ents, sp); v(sched[step]); }
+                // evaluated limits and targets (what a simulator sees)
+                for (const auto& wn : sched.wellNames(step)) {
+                    const auto& w = sched.getWell(wn, step);
+                    auto add = [&](const char* what, double val) { Ent e; e.path = sp + "/" + wn + "/" + what; e.num = true; e.v = val; sec.ents.push_back(e); };
+                    add("ref_depth", w.getRefDepth());
+                    if (w.isProducer()) { auto c = w.productionControls(st); add("oil_rate", c.oil_rate); add("water_rate", c.water_rate); add("gas_rate", c.gas_rate); add("liquid_rate", c.liquid_rate); add("resv_rate", c.resv_rate); add("bhp_limit", c.bhp_limit); add("thp_limit", c.thp_limit); add("alq", c.alq_value); }
+                    else { auto c = w.injectionControls(st); add("surface_rate", c.surface_rate); add("reservoir_rate", c.reservoir_rate); add("bhp_limit", c.bhp_limit); add("thp_limit", c.thp_limit); }
+                }
+                for (const auto& gn : sched.groupNames(step)) {
+                    const auto& g = sched.getGroup(gn, step);
+                    auto add = [&](const char* what, double val) { Ent e; e.path = sp + "/" + gn + "/" + what; e.num = true; e.v = val; sec.ents.push_back(e); };
+                    if (g.isProductionGroup()) { auto c = g.productionControls(st); add("oil_target", c.oil_target); add("water_target", c.water_target); add("gas_target", c.gas_target); add("liquid_target", c.liquid_target); add("resv_target", c.resv_target); }
+                    for (Phase ph : {Phase::WATER, Phase::GAS}) if (g.hasInjectionControl(ph)) { auto c = g.injectionControls(ph, st); add("inj_surface_max_rate", c.surface_max_rate); add("inj_resv_max_rate", c.resv_max_rate); }
+                }
+            }
+            mo.sections.push_back(std::move(sec));
+        }
+        mo.ok = true;
+    } catch (const std::exception& e) { mo.err = e.what(); }
+}
+
+static int runModel(const vh::Args& args, vh::Reporter& rep, Env& env) {
+    auto python = std::make_shared<Python>();
+    rep.run_cases([&](long idx, Rng& rng) {
+        ModelInfo mi;
+        PhysText p = generateModel(rng, mi);
+        std::string text[4];
+        ModelObs obs[4];
+        for (int s = 0; s < 4; ++s) {
+            text[s] = p.render(s);
+            auto rep1 = [&](const std::string& what, const std::string& with) { size_t q; while ((q = text[s].find(what)) != std::string::npos) text[s].replace(q, what.size(), with); };
+            rep1("@UNITS@", SYSKEY[s]);
+            rep1("@VFPUNITS@", SYSKEY[s]);
+            observeModel(env.parser, text[s], python, obs[s]);
+        }
+        for (auto& f : mi.features) rep.cover("model_feature", f);
+        for (auto& d : p.dims) rep.cover("model_dimension", d);
+        rep.count("physical_values_written", p.nvalues);
+        rep.count("items_defaulted", p.ndefaults);
+        auto witness = [&](int s) { return std::string("--- METRIC ---\n") + text[0] + "--- " + SYSKEY[s] + " ---\n" + text[s]; };
+        if (!obs[0].ok) {
+            // the generator wrote something the library refuses in METRIC already: not a unit matter
+            rep.count("model_refused_in_metric"); rep.cover("model_refused_stage", obs[0].stage + ": " + obs[0].err.substr(0, 80));
+            if (args.replaying) fprintf(stderr, "%s\n%s\n", obs[0].err.c_str(), text[0].c_str());
+            return;
+        }
+        long compared = 0;
+        for (int s = 1; s < 4; ++s) {
+            if (!obs[s].ok) {
+                rep.violation(std::string("model-refused:") + SYSKEY[s] + ":" + obs[s].stage, std::string("the model is accepted in METRIC but refused in ") + SYSKEY[s] + " (" + obs[s].stage + "): " + obs[s].err.substr(0, 300), witness(s) + "--- exception ---\n" + obs[s].err + "\n");
+                continue;
+            }
+            for (size_t q = 0; q < obs[0].sections.size(); ++q) {
+                const auto& A = obs[0].sections[q].ents; const auto& B = obs[s].sections[q].ents;
+                const std::string& sn = obs[0].sections[q].name;
+                size_t nmin = std::min(A.size(), B.size());
+                int reported = 0;
+                bool structural = false;
+                for (size_t i = 0; i < nmin && reported < 3; ++i) {
+                    const Ent& a = A[i]; const Ent& b = B[i];
+                    if (a.path != b.path || a.num != b.num || (!a.num && a.txt != b.txt)) {
+                        std::string site = a.path; for (auto& c : site) if (std::isdigit((unsigned char)c)) c = '#';
+                        rep.violation("model-structure-differs:" + sn + ":" + site.substr(0, 80), sn + ": entry " + a.path + " is '" + (a.num ? g17(a.v) : a.txt) + "' in METRIC but " + b.path + " '" + (b.num ? g17(b.v) : b.txt) + "' in " + SYSKEY[s],
+                                      witness(s));
+                        structural = true;
+                        break;
+                    }
+                    if (!a.num) continue;
+                    ++compared;
+                    double e = vh::reldiff(a.v, b.v);
+                    rep.maxof("max_rel_diff_" + sn, std::isfinite(e) ? e : 1e300);
+                    if (!(e <= 1e-12)) {
+                        std::string site = a.path; for (auto& c : site) if (std::isdigit((unsigned char)c)) c = '#';
+                        ++reported;
+                        rep.violation("model-si-differs:" + sn + ":" + site.substr(0, 100), sn + ": " + a.path + " is " + g17(a.v) + " (SI) from the METRIC deck but " + g17(b.v) + " from the " + SYSKEY[s] + " deck (rel. diff " + g17(e) + ")", witness(s));
+                    }
+                }
+                if (!structural && A.size() != B.size()) rep.violation("model-structure-differs:" + sn + ":length", sn + ": " + std::to_string(A.size()) + " entries in METRIC, " + std::to_string(B.size()) + " in " + SYSKEY[s], witness(s));
+            }
+        }
+        rep.count("si_values_compared", compared);
+        rep.count("models_compared");
+        rep.case_done(vh::fnv(text[1]), p.nvalues > 50);
+        if (idx == 0) rep.sample(text[1]);
+    });
+    return 0;
+}
+
 int main(int argc, char** argv) {
     vh::Args args = vh::parse_args(argc, argv);
     vh::Reporter rep(args, "C02");
@@ -1119,6 +1696,7 @@ int main(int argc, char** argv) {
     int rc = 0;
     if (part == "tables") rc = runTables(args, rep, env);
     else if (part == "kw") rc = runKw(args, rep, env);
+    else if (part == "model") rc = runModel(args, rep, env);
     else { fprintf(stderr, "c02_units: unknown part '%s'\n", part.c_str()); return 2; }
     rep.finish();
     return rc;
